@@ -87,7 +87,15 @@ TagsInv == TagsAgree
             if not (os.path.exists(yml) and os.path.exists(want)):
                 continue
             size = 0
-            if n % 3 == 0:
+            # which form of the policy the command reads: the documented YAML (two of four), or a marshalled form under the file name a user
+            # would give it (what a file is called must not change what it means)
+            form = ("documented YAML", "documented YAML", "json.Marshal (.json)", "yaml.Marshal (.yaml)", "documented YAML", "json.Marshal (.JSON)")[n % 6]
+            alt = {"json.Marshal (.json)": "pol_%d.json", "yaml.Marshal (.yaml)": "pol_%d.m.yaml", "json.Marshal (.JSON)": "pol_%d.JSON"}.get(form)
+            if alt and os.path.exists(os.path.join(emit, alt % i)):
+                yml = os.path.join(emit, alt % i)
+            else:
+                form = "documented YAML"
+            if n % 3 == 0 and form == "documented YAML":
                 lines = open(yml).read().splitlines(True)
                 size = 1100000 if (th and n % 9 == 0) else 70000
                 at = rnd.randrange(1, len(lines) + 1)
@@ -103,9 +111,9 @@ TagsInv == TagsAgree
                     ctx.note("the sandbox command installed nothing for policy %d (%s bytes of padding; rc %s): %s" % (i, size, rc, (err or "")[-120:]))
                 continue
             if prog != open(want).read():
-                ctx.violation("policy %d read by the sandbox command from a %s file is installed as a different program than the in-memory policy compiles to (%d vs %d instructions)"
-                              % (i, "%d-byte padded" % size if size else "plain", len(prog.splitlines()), len(open(want).read().splitlines())),
-                              {"what": "cmd/sandbox configuration path", "policy": pols[i], "padding_bytes": size, "yaml_head": open(yml).read()[:600],
+                ctx.violation("policy %d read by the sandbox command from a %s file (%s, %s) is installed as a different program than the in-memory policy compiles to (%d vs %d instructions)"
+                              % (i, "%d-byte padded" % size if size else "plain", form, os.path.basename(yml), len(prog.splitlines()), len(open(want).read().splitlines())),
+                              {"what": "cmd/sandbox configuration path", "policy": pols[i], "padding_bytes": size, "form": form, "yaml_head": open(yml).read()[:600],
                                "how": "./check C14 quick"})
         ctx.cov["evaluations"] += nrun
         ctx.cov["sandbox_command_reads"] = {"files": nrun, "padded_beyond_64KiB": nbig, "nothing_installed": nrefused}
